@@ -7,6 +7,8 @@ pub fn deserialize_superscript_number(current_char: &char, expr: &mut Peekable<C
         .map(|c| c.to_string())
         .unwrap_or_default();
     while let Some(next_char) = expr.peek() {
+        #[cfg(feature = "verif_hooks")]
+        crate::verif_hooks::tick();
         if let Some(next_char) = superscript_digit_to_digit(next_char) {
             expr.next();
             number.push(next_char);
